@@ -152,8 +152,11 @@ impl<R: Read, TSpec> TagIterator<R, TSpec>
             }
 
             self.internal_buffer_position += 1;
-            if self.peek_valid_tag_header().is_ok() {
-                break;
+            match self.peek_valid_tag_header() {
+                Ok(_) => break,
+                // Problems reading from the source are not corrupted data that can be skipped over
+                Err(TagIteratorError::ReadError { source }) => return Err(TagIteratorError::ReadError { source }),
+                Err(_) => {},
             }
         }
 
